@@ -736,6 +736,32 @@ func (e *Engine) structural(fn *ssa.Function, dir string) *Obligation {
 		}
 		o.Status = "proved"
 		o.Detail = "no delete / clear / re-assignment of the set anywhere in the package"
+	case len(f) == 2 && f[0] == "sole-caller-of":
+		// `structure sole-caller-of <callee-glob>`: in the whole package (closures included) only this function calls a
+		// function matching the glob — e.g. every walk of a parse tree goes through the one function that recovers
+		pkgPath := fn.Pkg.Pkg.Path()
+		found := false
+		for _, g := range e.allFunctions(pkgPath) {
+			for _, b := range g.Blocks {
+				for _, in := range b.Instrs {
+					ci, ok := in.(ssa.CallInstruction)
+					if !ok || !globMatch(f[1], calleeName(ci.Common())) {
+						continue
+					}
+					if g != fn {
+						o.Detail = e.shortName(g) + " calls " + calleeName(ci.Common()) + " directly"
+						return o
+					}
+					found = true
+				}
+			}
+		}
+		if !found {
+			o.Detail = "the function does not call anything matching " + f[1]
+			return o
+		}
+		o.Status = "proved"
+		o.Detail = "no other function of the package calls " + f[1]
 	case len(f) == 1 && f[0] == "no-channel-ops":
 		// the function synchronises only through the mutex / errgroup named in its contract: no channel send,
 		// receive, select or close — each of which could block a path that the error-propagation obligations assume returns
